@@ -324,6 +324,8 @@ def free_names(node):
         return (inner - set(pm)).union(*[expr_names(e) for n, e in pm.items() if n in inner])
     if k == 'par':
         own = own.union(*[expr_names(v) for v in node['ov'].values()])
+    if k == 'rep' and isinstance(node['n'], list):
+        own = own | expr_names(node['n'])
     if k == 'arith':
         sc = node['scalar']
         own = own.union(*[expr_names(v) for v in (sc.values() if isinstance(sc, dict) else [sc])])
@@ -418,6 +420,39 @@ def pick_S(rng, tree, paths):
     return S
 
 
+def count_val(n, env):
+    """a repetition count of a JSON tree under the parameter values `env`: an int, an affine expression of top-level
+    parameters (family exprattr) or {'sympy': text} (read back from a real template whose count is not affine, e.g. the
+    product (p + 1)*(q + 1) of a merged repetition).  The model's QRep carries a number: expression counts are evaluated
+    HERE, which is only right where no MappingPT / ForLoopPT above the node rebinds the names (the family puts such
+    nodes at the top of the operand; `gen_exprattr_cases` asserts it)."""
+    if isinstance(n, dict):
+        import sympy
+        v = sympy.sympify(n['sympy']).subs({k: sympy.Rational(F(x).numerator, F(x).denominator)
+                                            for k, x in (env or {}).items()})
+        assert v.is_Integer and v >= 0, (n, env)
+        return int(v)
+    if isinstance(n, list):
+        v = I.num(n, env)
+        assert v.denominator == 1 and v >= 0, (n, env)
+        return int(v)
+    return n
+
+
+def bad_counts(node, params):
+    """repetition counts of a described template that do not evaluate to a non-negative integer (top-level parameters)"""
+    env = {k: F(v) for k, v in (params or {}).items()}
+    out = []
+    if node['k'] == 'rep':
+        try:
+            count_val(node['n'], env)
+        except (AssertionError, KeyError):
+            out.append(node['n'])
+    for c in (node.get('subs') or []) if node['k'] == 'amc' else I.children(node):
+        out += bad_counts(c, params)
+    return out
+
+
 def est_ticks(node, step, env=None):
     """duration in ticks (for budget control)"""
     env = env or {}
@@ -433,7 +468,7 @@ def est_ticks(node, step, env=None):
     if k == 'seq':
         return sum(est_ticks(s, step, env) for s in node['subs'])
     if k == 'rep':
-        return node['n'] * est_ticks(node['body'], step, env)
+        return count_val(node['n'], env) * est_ticks(node['body'], step, env)
     if k == 'for':
         return sum(est_ticks(node['body'], step, dict(env, **{node['idx']: v})) for v in range(*node['range']))
     if k == 'map':
@@ -1110,6 +1145,76 @@ def gen_receiver_cases(rng, exhaustive=False):
     return cases
 
 
+# ---- helpers that combine an EXPRESSION attribute of the receiver with their argument ---------------------------------
+COUNT_INNER = [['1', 'p', '1'], ['-1', 'p', '1'], ['0', 'p', '2'], ['0', 'p', '1'], ['3', 'p', '-1'],
+               ['0', 'p', '1', 'q', '1'], ['1', 'p', '1', 'q', '-1'], 2]
+COUNT_OUTER = [2, 3, ['1', 'q', '1'], ['1', 'p', '1'], ['-1', 'q', '1'], 0, 1]
+
+
+def gen_exprattr_cases(rng, exhaustive=False):
+    """class `a helper computes a new expression from an expression attribute of its receiver` (seed C05-10:
+    with_repetition built the merged count from the TEXT of the two counts, 'p + 1 * 2'; every count the other families
+    generate is an integer literal, every padded duration a number).  Deterministic: with_repetition / ** on a RepetitionPT
+    whose count is a sum / difference / multiple of top-level parameters (merged when unnamed and without measurements,
+    nested otherwise) with a number or an expression as outer count, at parameter values where n + c*m != (n + c)*m;
+    pad_to on templates whose DURATION is a sum of parameter expressions, to a number / an expression of another
+    parameter; compared with the explicit nesting (sampled), and with Ctors.v (tie)."""
+    cases = []
+    step = '1'
+    g = Gen(rng, step)
+    k = 0
+    for inner in COUNT_INNER:
+        for outer in COUNT_OUTER:
+            if not isinstance(inner, list) and not isinstance(outer, list):
+                continue
+            for variant in (['merge', 'named', 'meas'] if exhaustive else ['merge'] if k % 4 else ['merge', 'named', 'meas'][k % 3:][:2] + ['merge']):
+                for pv in ([(1, 2), (2, 3), (3, 2), (2, 1)] if exhaustive else [(2, 3), (1, 2), (3, 2)]):
+                    env = {'p': F(pv[0]), 'q': F(pv[1])}
+                    try:
+                        ni, no = count_val(inner, env), count_val(outer, env)
+                    except AssertionError:
+                        continue
+                    if ni * no > 12 or (not exhaustive and ni * no == 0 and k % 5):
+                        continue
+                    k += 1
+                    body = {'k': 'table', 'id': None, 'entries': {'A': [['0', _fr(g.val()), 'hold'], ['2', _fr(g.val()), 'linear']]},
+                            'meas': [['n', '1', '1']]} if k % 2 else \
+                           {'k': 'const', 'id': None, 'dur': '1', 'vals': {'A': _fr(g.val() or 1)}, 'meas': [['m', '0', '1']]}
+                    r = {'k': 'rep', 'id': 'rcv' if variant == 'named' else None,
+                         'meas': [['k', '0', '1']] if variant == 'meas' else [], 'n': inner, 'body': body}
+                    names = set(expr_names(inner)) | set(expr_names(outer))
+                    cases.append({'kind': 'ctor', 'step': step, 'op': 'pow' if k % 3 == 0 else 'rep', 'args': [r], 'n': outer,
+                                  'family': 'exprattr', 'params': {n: _fr(env[n]) for n in sorted(names)}})
+                    if not exhaustive:
+                        break
+    # pad_to: the receiver's duration is a sum of parameter expressions
+    for j, (d1, d2) in enumerate([(['1', 'p', '1'], ['1', 'p', '2']), (['0', 'p', '1'], ['2', 'p', '-1/2']),
+                                  (['1', 'p', '1', 'q', '1'], None), (['2', 'q', '1'], ['0', 'p', '1'])]):
+        for mode in (None, 'expr', 'kwargs', 'callable'):
+            for pv in ([(2, 1), (2, 3), (4, 2)] if exhaustive else [(2, 1 + j % 2)]):
+                env = {'p': F(pv[0]), 'q': F(pv[1])}
+                atom = lambda d, i: {'k': 'const', 'id': None, 'dur': d, 'vals': {'A': _fr(g.val()), 'B': _fr(F(i))},
+                                     'meas': [['m', '0', '1']]}
+                inner = atom(d1, 1) if d2 is None else {'k': 'seq', 'id': None if j % 2 else 's', 'meas': [],
+                                                        'subs': [atom(d1, 1), atom(d2, 2)]}
+                names = free_names(inner)
+                extra = 1 + (j + len(cases)) % 3
+                c = {'kind': 'ctor', 'step': step, 'op': 'pad', 'args': [inner], 'extra': extra, 'family': 'exprattr'}
+                if mode:
+                    c['pad_mode'] = mode
+                total = est_ticks(inner, step, env)
+                if mode == 'expr':
+                    # new duration = an expression of the OTHER parameter where there is one, valued total + extra
+                    other = 'q' if 'q' not in names else 'p'
+                    coef = F(2)
+                    c['new_duration'] = [_fr(total + extra - coef * env[other]), other, _fr(coef)]
+                    names = set(names) | {other}
+                c['params'] = {n: _fr(env[n]) for n in sorted(names)}
+                if times_ok(inner, step, env) and total + extra <= 40:
+                    cases.append(c)
+    return cases
+
+
 def ctor_explicit(c):
     """JSON tree of the explicit nesting a constructor call replaces"""
     op = c['op']
@@ -1173,10 +1278,14 @@ def ctor_call(c, a=None):
         sc = c['scalar']
         sc = {ch: I._py(v) for ch, v in sc.items()} if isinstance(sc, dict) else I._py(sc)
         return f(a[0], sc) if c['side'] == 'l' else f(sc, a[0])
-    if op == 'rep':
-        return a[0].with_repetition(c['n'])
-    if op == 'pow':
-        return a[0] ** c['n']
+    if op in ('rep', 'pow'):
+        n = c['n']
+        if isinstance(n, list):
+            # an expression as outer count is handed over as ExpressionScalar (a plain string raises SympifyError on a
+            # receiver whose count is merged: ExpressionScalar * str is not defined - see notes, observation)
+            from qupulse.expressions import ExpressionScalar
+            n = ExpressionScalar(str(I._expr(n)))
+        return a[0].with_repetition(n) if op == 'rep' else a[0] ** n
     if op == 'map':
         kw = {'parameter_mapping': {k: str(I._expr(e)) for k, e in c['pmap'].items()}} if c.get('pmap') else {}
         if c.get('positional'):
@@ -1195,8 +1304,11 @@ def ctor_call(c, a=None):
     if op == 'iter':
         return a[0].with_iteration('i', tuple(c['range']))
     if op == 'pad':
-        total = est_ticks(c['args'][0], c['step']) * F(c['step'])
+        total = est_ticks(c['args'][0], c['step'], {k: F(v) for k, v in (c.get('params') or {}).items()}) * F(c['step'])
         mode = c.get('pad_mode')
+        if mode == 'expr':
+            # the new duration is an EXPRESSION of a top-level parameter (its value: total + extra ticks)
+            return a[0].pad_to(str(I._expr(c['new_duration'])))
         if mode == 'callable':
             return a[0].pad_to(lambda d: d + I._py(F(c['extra']) * F(c['step'])))
         if mode == 'next_multiple':
@@ -1750,9 +1862,15 @@ def describe(pt):
     if isinstance(pt, SequencePT):
         return {'k': 'seq', 'id': ident, 'meas': meas(pt), 'subs': [describe(s) for s in pt.subtemplates]}
     if isinstance(pt, RepetitionPT):
-        n = pt.repetition_count.sympified_expression
-        assert n.is_Integer, n
-        return {'k': 'rep', 'id': ident, 'meas': meas(pt), 'n': int(n), 'body': describe(pt.body)}
+        n = sympy.sympify(pt.repetition_count.sympified_expression)
+        if n.is_Integer:
+            n = int(n)
+        else:
+            try:
+                n = numj(n)
+            except AssertionError:          # not affine: e.g. the product of two expression counts
+                n = {'sympy': str(n)}
+        return {'k': 'rep', 'id': ident, 'meas': meas(pt), 'n': n, 'body': describe(pt.body)}
     if isinstance(pt, ForLoopPT):
         r = pt.loop_range.to_tuple()
         return {'k': 'for', 'id': ident, 'meas': meas(pt), 'idx': pt.loop_index, 'range': [int(x) for x in r],
@@ -1789,6 +1907,7 @@ def gen_cases(rng, tier, ctx):
         cases += gen_shape_cases(rng, 100)
         cases += gen_ctor_cases(rng, 240)
         cases += gen_receiver_cases(rng)
+        cases += gen_exprattr_cases(rng)
         cases += gen_script_cases(rng, 130)
     else:
         cases += gen_opt_cases(rng, 900, 4, 4)
@@ -1800,6 +1919,7 @@ def gen_cases(rng, tier, ctx):
         cases += gen_receiver_cases(rng, exhaustive=True)
         cases += gen_receiver_cases(rng)
         cases += gen_receiver_cases(rng)
+        cases += gen_exprattr_cases(rng, exhaustive=True)
         cases += gen_script_cases(rng, 200, exhaustive=True)
         cases += gen_script_cases(rng, 500)
     return cases
@@ -1873,6 +1993,10 @@ def run_impl(case):
                     return {'crash': 'the convenience constructor changed one of its operands (compiled before and '
                                      'after the call: different programs)'}
                 # the operands as the real objects are (MappingPT(MappingPT(x)) already merges when it is built)
+                bad = bad_counts(describe(built), case.get('params'))
+                if bad:
+                    return {'crash': 'the constructor returned a RepetitionPT whose count %s is not a non-negative integer '
+                                     'at the parameters of the case (the counts of the explicit nesting are)' % (bad,)}
                 return {'built': describe(built), 'o1': o1, 'o2': o2,
                         'args': [describe(I.build_pt(x)) for x in case['args']]}
         return _guard(go)
@@ -1892,6 +2016,7 @@ class Printer:
     def __init__(self, step, tree=None, S_eff_paths=()):
         self.step = F(step)
         self.classes = {}
+        self.params = {}           # top-level parameter values: ONLY for expression-valued repetition counts (count_val)
 
     def cls(self, node):
         return self.classes.setdefault(canon(node), len(self.classes) + 1)
@@ -1940,7 +2065,8 @@ class Printer:
         if k == 'seq':
             return '(QSeq %s %s %s)' % (i, self.wins(node), glist(lambda c: self.pt(c), node['subs']))
         if k == 'rep':
-            return '(QRep %s %s %s %s)' % (i, self.wins(node), vlib.gnat(node['n']), self.pt(node['body']))
+            return '(QRep %s %s %s %s)' % (i, self.wins(node), vlib.gnat(count_val(node['n'], self.params)),
+                                           self.pt(node['body']))
         if k == 'for':
             a, b, st = node['range']
             return '(QFor %s %s %s %s %s %s %s)' % (i, self.wins(node), gN(PN[node['idx']]), gZ(a), gZ(b), gZ(st),
@@ -2027,6 +2153,7 @@ def to_coq(case, obs):
         return '(COpt %s %s %s %s %s %s)' % (term, g_params(case.get('params')), glist(gN, S), g_trafo(case['G']),
                                              g_obs(obs['plain'], case['step']), g_obs(obs['opt'], case['step']))
     pr = Printer(case['step'], None)
+    pr.params = {k: F(v) for k, v in (case.get('params') or {}).items()}
     q1, q2 = pr.pt(obs['built'], {}), pr.pt(ctor_explicit(case), {})
     k = g_cop(dict(case, args=obs['args']), pr) if 'args' in obs else None
     if k is None:
@@ -2056,7 +2183,7 @@ def g_cop(case, pr):
     if op == 'pad':
         return '(KPad %s %s %s)' % (gbool(case.get('pad_mode') == 'kwargs'), pr.pt(a[0]), gZ(case['extra']))
     if op in ('rep', 'pow'):
-        return '(KRep %s %s)' % (vlib.gnat(case['n']), pr.pt(a[0]))
+        return '(KRep %s %s)' % (vlib.gnat(count_val(case['n'], pr.params)), pr.pt(a[0]))
     if op == 'rev2':
         return '(KRev2 %s %s)' % (gbool(case['named']), pr.pt(a[0]))
     if op == 'rev1':
@@ -2257,7 +2384,7 @@ def rev_spans(tree, eff, step, env):
             return t - start
         if k == 'rep':
             t = start
-            for _ in range(node['n']):
+            for _ in range(count_val(node['n'], env)):
                 t += go(node['body'], path + (0,), t, env)
             return t - start
         if k == 'for':
